@@ -227,7 +227,6 @@ var c01Classes = []c01ClassDef{
 	{"plain-node-root", func(o opFacts, d dataFacts, sh bool) bool { return o.PlainNodeRoot }, []string{"wrong-data"}},
 	{"node-root-fragment", func(o opFacts, d dataFacts, sh bool) bool { return o.NodeRoot }, []string{"invalid-subrequest/unknown-field", "error/internal-service-url", "wrong-data", "error/missing-id"}},
 	{"abstract-type-selection", func(o opFacts, d dataFacts, sh bool) bool { return o.Abstract }, []string{"invalid-subrequest/unknown-field", "invalid-subrequest/empty-selection", "wrong-data", "error/missing-id"}},
-	{"empty-list-default", func(o opFacts, d dataFacts, sh bool) bool { return o.EmptyListDefault }, []string{"wrong-data"}},
 	{"variable-named-id", func(o opFacts, d dataFacts, sh bool) bool { return o.VarNamedID }, []string{"invalid-subrequest/other", "wrong-data", "invalid-subrequest/undefined-variable"}},
 }
 
